@@ -32,7 +32,7 @@ FM.traceback = _FakeTraceback
 LAST = None
 _OPT = {}
 # write patterns
-W_NONE, W_PRINT, W_NONL, W_ERR, W_BOTH, W_BYTES = range(6)
+W_NONE, W_PRINT, W_NONL, W_ERR, W_BOTH, W_BYTES, W_TD = range(7)      # W_TD: print() in setUp and to both streams in tearDown
 
 
 def _options(buf):
@@ -47,12 +47,12 @@ def _options(buf):
     return o
 
 
-TOK = {n: ('TOK-%s-out' % n, 'TOK-%s-err' % n, ('TOK-%s-out\n' % n).encode(), 'LATE-%s-out' % n, 'LATE-%s-err' % n) for n in ('t0', 't1', 't2', 'tz')}   # built at import, untraced
+TOK = {n: ('TOK-%s-out' % n, 'TOK-%s-err' % n, ('TOK-%s-out\n' % n).encode(), 'LATE-%s-out' % n, 'LATE-%s-err' % n, 'TD-%s-out' % n, 'TD-%s-err' % n) for n in ('t0', 't1', 't2', 'tz')}   # built at import, untraced
 
 
 def writer(pattern):
     def out(name):
-        if pattern == W_PRINT:
+        if pattern in (W_PRINT, W_TD):
             print(TOK[name][0])
         elif pattern == W_NONL:
             sys.stdout.write(TOK[name][0])
@@ -67,6 +67,20 @@ def writer(pattern):
     return out
 
 
+def td_writer(pattern):
+    if pattern != W_TD:
+        return None
+
+    def td_out(name):
+        print(TOK[name][5])
+        print(TOK[name][6], file=sys.stderr)
+    return td_out
+
+
+def tears_down(kind):
+    return kind not in (W.SKIP_DECO, W.SKIP_SETUP, W.SETUP_ERR, W.KBD)
+
+
 def late_writer(name):
     print(TOK[name][3])
     print(TOK[name][4], file=sys.stderr)
@@ -76,8 +90,10 @@ def tokens(name, pattern, kind=None):
     t = []
     if kind in (W.SUBPASS_PASS, W.SUBPASS_FAIL):
         t += [TOK[name][3], TOK[name][4]]
-    if pattern in (W_PRINT, W_NONL, W_BOTH, W_BYTES):
+    if pattern in (W_PRINT, W_NONL, W_BOTH, W_BYTES, W_TD):
         t.append(TOK[name][0])
+    if pattern == W_TD and kind is not None and tears_down(kind):
+        t += [TOK[name][5], TOK[name][6]]
     if pattern in (W_ERR, W_BOTH):
         t.append(TOK[name][1])
     return t
@@ -132,11 +148,11 @@ def streams(n, k0, k1, k2, p0, p1, p2, buf, kbd=False, xml=False):
     n = ci(n, 1, 3)
     buf, kbd, xml = cb(buf), cb(kbd), cb(xml)
     kinds = [ci(k, 0, 16) for k in (k0, k1, k2)[:n]]
-    pats = [ci(p, 0, 5) for p in (p0, p1, p2)[:n]]
+    pats = [ci(p, 0, 6) for p in (p0, p1, p2)[:n]]
     names = ['t0', 't1', 't2'][:n]      # literal names: '%'-formatting under CrossHair yields lazily symbolic strings
     with untraced():
         L = W.mk_layer('L', (), hooks='ST')
-        tests = [W.mk_test(nm, k, out=writer(p), late=late_writer) for nm, k, p in zip(names, kinds, pats)]
+        tests = [W.mk_test(nm, k, out=writer(p), late=late_writer, td_out=td_writer(p)) for nm, k, p in zip(names, kinds, pats)]
         if kbd:          # a last test that is interrupted from the keyboard after it wrote to both streams
             tests.append(W.mk_test('tz', W.KBD, out=writer(W_BOTH)))
         suite = unittest.TestSuite(tests)
@@ -177,7 +193,7 @@ def streams_reach(*a):
 
 _P = [('n', 'int'), ('k0', 'int'), ('k1', 'int'), ('k2', 'int'), ('p0', 'int'), ('p1', 'int'), ('p2', 'int'), ('buf', 'bool'), ('kbd', 'bool'), ('xml', 'bool')]
 _C = ', '.join(n for n, _ in _P)
-_B = '1 <= n <= 3 and ' + ' and '.join('0 <= k%d <= 16 and 0 <= p%d <= 5' % (i, i) for i in range(3))
+_B = '1 <= n <= 3 and ' + ' and '.join('0 <= k%d <= 16 and 0 <= p%d <= 6' % (i, i) for i in range(3))
 
 
 def _v(**kw):
@@ -195,7 +211,7 @@ SPEC = {
     'files': ['src/zope/testrunner/runner.py', 'src/zope/testrunner/formatter.py', 'src/zope/testrunner/options.py'],
     'stubs': ['formatter.traceback.format_exception -> constant text', 'unittest.TestResult._exc_info_to_string -> constant',
               'runner.time, runner.gc', 'sys.stdout/sys.stderr -> two TextIOWrapper objects over one byte buffer (no getvalue(), like real streams)'],
-    'assumptions': ['each test writes its tokens at the start of its own setUp; a decorator-skipped test writes nothing'],
+    'assumptions': ['each test writes its tokens at the start of its own setUp (write pattern 6: also in its tearDown, i.e. after a failure of its body was reported); a decorator-skipped test writes nothing'],
     'outside': ['writes through file descriptors 1/2', 'tests that replace sys.stdout themselves', 'more than 3 consecutive tests'],
     'harnesses': [
         {'name': 'streams', 'fn': 'streams', 'params': _P, 'call': _C,
@@ -207,6 +223,6 @@ SPEC = {
          'reach': 'streams_reach', 'reach_bounds': {'quick': _B + ' and n == 2 and p1 == 1 and k2 == 0 and p2 == 0 and buf and p0 == 4',
                                                     'thorough': _B + ' and n == 2 and p1 == 1 and k2 == 0 and p2 == 0 and buf and p0 == 4'},
          'timeout': {'quick': 240, 'thorough': 850},
-         'fidelity': [_v(), _v(k0=6, p0=1), _v(k0=16, k1=15, p0=4), _v(n=1, kbd=True), _v(n=1, k0=2, p0=3, xml=True), _v(n=3, k0=7, k1=4, k2=9, p0=2, p1=5, p2=3), _v(buf=False, k0=5, p0=5)]},
+         'fidelity': [_v(), _v(k0=6, p0=1), _v(k0=16, k1=15, p0=4), _v(n=1, kbd=True), _v(n=1, k0=2, p0=3, xml=True), _v(n=3, k0=7, k1=4, k2=9, p0=2, p1=5, p2=3), _v(buf=False, k0=5, p0=5), _v(k0=1, p0=6), _v(k0=13, k1=2, p0=6, p1=6)]},
     ],
 }
